@@ -13,10 +13,12 @@
 EXTENDS Naturals, Sequences, FiniteSets, TLC
 
 Nil == <<"nil">>
-Leaves == {"Integer", "Unicode", "Boolean", "Date", "DateTime", "Double", "Decimal", "Uuid", "ByteArray", "Integer8", "UnsignedInteger16"}
+Leaves == {"Integer", "Unicode", "Boolean", "Date", "DateTime", "Double", "Decimal", "Uuid", "ByteArray", "Integer8", "UnsignedInteger16",
+           "Time", "Duration"}
 TypeName(p) == CASE p = "Integer" -> "integer" [] p = "Unicode" -> "string" [] p = "Boolean" -> "boolean" [] p = "Date" -> "date"
                  [] p = "DateTime" -> "dateTime" [] p = "Double" -> "double" [] p = "Decimal" -> "decimal" [] p = "Uuid" -> "uuid"
                  [] p = "ByteArray" -> "base64Binary" [] p = "Integer8" -> "byte" [] p = "UnsignedInteger16" -> "unsignedShort"
+                 [] p = "Time" -> "time" [] p = "Duration" -> "duration"
 \* two conformant values per leaf type (boundary-flavoured), as canonical text
 LeafVals(p) ==
   CASE p = "Integer" -> {"5", "-123456789012345678901234567890"} [] p = "Unicode" -> {"hello", "x < y & z"}
@@ -25,6 +27,7 @@ LeafVals(p) ==
     [] p = "Double" -> {"1.5", "-0.25"} [] p = "Decimal" -> {"1.5", "-100.25"}
     [] p = "Uuid" -> {"12345678-1234-1234-1234-123456789abc", "00000000-0000-0000-0000-000000000000"}
     [] p = "ByteArray" -> {"AAEC", "SGVsbG8="} [] p = "Integer8" -> {"-128", "127"} [] p = "UnsignedInteger16" -> {"0", "65535"}
+    [] p = "Time" -> {"23:59:58", "00:00:00.500000"} [] p = "Duration" -> {"P1DT2S", "PT2H3M"}
 Prim(p) == [k |-> "prim", p |-> p]
 NoBase == [k |-> "none"]
 Obj(name, ns, fields) == [k |-> "obj", name |-> name, ns |-> ns, fields |-> fields, hasbase |-> FALSE, base |-> NoBase, subs |-> <<>>]
